@@ -109,7 +109,7 @@ def gen_spec(rng, solver, df, pen, seed, coords):
         spec["pen_opts"] = dict(gamma=float(rng.choice([40.0, 100.0])))
     if pen == "WeightedMCPenalty":
         spec["pen_opts"]["weights"] = None
-    return spec
+    return K.widen(rng, spec, prob=0.1, n_range=(40, 100), p_range=(60, 250))
 
 
 def run_shard(spec, emit):
@@ -271,7 +271,8 @@ def run_case(emit, cid, cs, rng, sample=False):
                 increase=(Fe - pf) if np.isfinite(Fe) and np.isfinite(pf) else None))
         pf = Fe
     rec = dict(base, nontrivial=bool(len(stops) >= 3 and changed), count=counts,
-               hist={"accepted_extrapolations": counts["extrap_accepted"], "warm": cs["warm"]})
+               hist={"accepted_extrapolations": counts["extrap_accepted"], "warm": cs["warm"],
+                     "size": cs.get("size", "small")})
     if viols:
         rec.update(status="violated", viol=viols[0], viols=viols[:40],
                    obs=dict(case=case.describe(), n_violations=len(viols), all=[v["detail"] for v in viols[:6]],
